@@ -3,7 +3,7 @@
     followed by [Print Assumptions].  Specification: Spec06.v (inscope, sp_tag, dyck / stream_ok, Appendix B).
     Models: Model06.v (capacities, duplicate-check threshold and error classes: Gen/GenElemStack.v, regenerated from
     /repo on every run). *)
-From XV Require Import Base.XDefs Gen.GenElemStack C06.Spec06 C06.Model06 C06.Proofs06a C06.Proofs06b C06.Proofs06c C06.Proofs06d C06.Proofs06e C06.Proofs06f.
+From XV Require Import Base.XDefs Gen.GenElemStack C06.Spec06 C06.Model06 C06.Proofs06a C06.Proofs06b C06.Proofs06c C06.Proofs06d C06.Proofs06e C06.Proofs06f C06.Proofs06g C06.Proofs06h.
 From Coq Require Import Arith.
 Local Open Scope nat_scope.
 
@@ -113,6 +113,70 @@ Print Assumptions T06_norm.
 Example T06_nonvacuous_norm :   (* urn:a&amp;b&#x3A;<TAB>c  ->  "urn:a&b: c" *)
   norm_raw (raw_of [AvLit 117; AvRef 38; AvLit 98; AvRef 58; AvLit 9; AvLit 99]) = [117; 38; 98; 58; 32; 99]%N.
 Proof. vm_compute. reflexivity. Qed.
+
+(** *** T06_wfmap: WFElemStack (WFXMLScanner's element stack: ONE flat prefix map shared by all levels, every level
+    remembers fTopPrefix, mapPrefixToURI searches from fTopPrefix downwards).  For EVERY history of addLevel / popTop /
+    addPrefix from the reset state the lookup answers what the declarations pushed by that history imply, with the
+    LATEST declaration of a level winning ([latest_first]: WFElemStack searches backwards, ElemStack forwards) ... *)
+Theorem T06_wfmap : forall ops w, Forall no_global ops -> wfs_run ops wfs_init = Ok w ->
+  exists rows, sop_run ops [] [] = Some (rows, []) /\
+               forall p, wfs_mapPrefixToURI w p = map_answer (map_spec (latest_first rows) p).
+Proof. exact wfs_map_all_histories. Qed.
+Print Assumptions T06_wfmap.
+(** ... which is the Spec's answer for the rows as declared whenever no level declares a prefix twice (the scanner
+    rejects such a tag: T06_resolve_wf) ... *)
+Theorem T06_wfmap_nodup : forall ops w, Forall no_global ops -> wfs_run ops wfs_init = Ok w ->
+  exists rows, sop_run ops [] [] = Some (rows, []) /\
+    (Forall (fun ds => NoDup (map fst ds)) rows -> forall p, wfs_mapPrefixToURI w p = map_answer (map_spec rows p)).
+Proof. exact wfs_map_nodup. Qed.
+Print Assumptions T06_wfmap_nodup.
+(** ... and the only failures are the caller's; no write leaves the flat map or the stack array whatever the depth or
+    the number of prefixes (capacities 32 / 16 growing by 5/4, read from the source; a popped sibling's entries above
+    fTopPrefix are overwritten, expandMap copies the old capacity which covers every live entry) *)
+Theorem T06_wfmap_no_fault : forall ops e, Forall no_global ops -> wfs_run ops wfs_init = Err e ->
+  (e = E_StackUnderflow \/ e = E_EmptyStack) /\ sop_run ops ([] : list (list (name * nat))) [] = None.
+Proof. exact wfs_no_fault. Qed.
+Print Assumptions T06_wfmap_no_fault.
+
+(** *** T06_resolve_wf: WFXMLScanner::scanStartTagNS (attributes handled while they are scanned: declarations pushed at
+    once, [xml:] / [xmlns:] / unprefixed attributes resolved at once, the others deferred to the end of the tag, then
+    the duplicate check on expanded names, then the element prefix) delivers exactly what the Spec demands, as
+    T06_resolve_sound / _errors / _complete / T06_resolve do for the IGXMLScanner path.  [SInvW]: the scanner state
+    represents the declarations of the open elements, row by row up to the order inside a row. *)
+Theorem T06_resolve_wf_sound : forall c s rows pfx loc attrs s' uri xs,
+  iswf c -> SInvW (c_v11 c) s rows -> Forall wf_attr attrs -> startTag c s pfx loc attrs = Ok (s', uri, xs) ->
+  exists e ans, sp_tag (c_v11 c) rows pfx (map sp_of attrs) = Some (e, ans) /\
+                res_ok (sc_uris s') uri e /\ Forall2 (fun x r => res_ok (sc_uris s') (xa_uri x) r) xs ans /\
+                map triple_x xs = map triple_a attrs /\
+                SInvW (c_v11 c) s' (sp_decls (map sp_of attrs) :: rows).
+Proof. exact startTag_sound_wf. Qed.
+Print Assumptions T06_resolve_wf_sound.
+Theorem T06_resolve_wf_errors : forall c s rows pfx loc attrs,
+  iswf c -> SInvW (c_v11 c) s rows -> Forall wf_attr attrs -> sp_tag (c_v11 c) rows pfx (map sp_of attrs) = None ->
+  exists e, startTag c s pfx loc attrs = Err e /\ ns_error e = true.
+Proof. exact startTag_rejects_wf. Qed.
+Print Assumptions T06_resolve_wf_errors.
+Theorem T06_resolve_wf_complete : forall c s rows pfx loc attrs e ans,
+  iswf c -> SInvW (c_v11 c) s rows -> Forall ncname_attr attrs ->
+  sp_tag (c_v11 c) rows pfx (map sp_of attrs) = Some (e, ans) ->
+  exists s' uri xs, startTag c s pfx loc attrs = Ok (s', uri, xs).
+Proof. exact startTag_complete_wf. Qed.
+Print Assumptions T06_resolve_wf_complete.
+Theorem T06_resolve_wf_init : forall v11, SInvW v11 scan_init [].
+Proof. exact sinvw_init. Qed.
+Print Assumptions T06_resolve_wf_init.
+Theorem T06_resolve_wf_endtag : forall c s ds rows, iswf c -> SInvW (c_v11 c) s (ds :: rows) ->
+  exists uri pfx loc s', st_pop c s = Ok (uri, pfx, loc, s') /\ SInvW (c_v11 c) s' rows /\ sc_uris s' = sc_uris s.
+Proof. exact st_pop_wf. Qed.
+Print Assumptions T06_resolve_wf_endtag.
+(** whole documents through WFXMLScanner: the statement of T06_resolve, for [c_scanner c = WF] *)
+Theorem T06_resolve_wf : forall c ts s' devs err, iswf c -> toks_nc ts -> toks_nested ts 0 = true ->
+  scan_toks c scan_init ts = (s', devs, err) ->
+  Forall2 (start_ok (sc_uris s')) (dev_starts devs) (fst (sp_doc (c_v11 c) (map sp_tok_of ts) [])) /\
+  (snd (sp_doc (c_v11 c) (map sp_tok_of ts) []) = true <-> err <> None) /\
+  (forall e, err = Some e -> ns_error e = true).
+Proof. exact doc_resolve_wf_init. Qed.
+Print Assumptions T06_resolve_wf.
 
 (** all these errors are fatal in the code (codes and the F_LowBounds..F_HighBounds range are read from
     XMLErrorCodes.hpp): the model's "the first error ends the scan" is the code's behaviour *)
@@ -244,4 +308,21 @@ Qed.
 Example T06_nonvacuous_doc :
   sp_doc false (map sp_tok_of ex_doc) [] =
   ([(NsIn ex_u, [NsIn uri_xmlns; NsNone]); (NsNone, [NsNone; NsIn uri_xmlns; NsIn ex_v])], false).
+Proof. vm_compute. reflexivity. Qed.
+(** the WF path: the document of T06_nonvacuous_doc through WFXMLScanner (same events as through IGXMLScanner), and a
+    40-level, 40-declarations-per-level history crossing both WFElemStack capacities *)
+Example T06_nonvacuous_wf :
+  fst (fst (parse_sax2 (mkCfg WF false) true ex_doc)) = fst (fst (parse_sax2 (mkCfg IG false) true ex_doc)) /\
+  snd (fst (parse_sax2 (mkCfg WF false) true ex_doc)) = None /\
+  map (fun t => snd (fst (parse_sax2 (mkCfg WF false) true [t])))
+    [TStart ex_q ex_a [] true;
+     TStart [] ex_a [mkRAttr s_xmlns ex_p ex_u; mkRAttr s_xmlns ex_p ex_v] true;
+     TStart [] ex_a [mkRAttr s_xmlns ex_p ex_u; mkRAttr s_xmlns ex_q ex_u; mkRAttr ex_p ex_a ex_v; mkRAttr ex_q ex_a ex_v] true] =
+  [Some E_UnknownPrefix; Some E_AttrAlreadyUsedInSTag; Some E_AttrAlreadyUsedInSTag].
+Proof. vm_compute. repeat split; reflexivity. Qed.
+Example T06_nonvacuous_wf_growth :
+  match wfs_run (repeat SPush 41 ++ map (fun i => SDecl [N.of_nat i] (5 + i)) (seq 100 40)) wfs_init with
+  | Ok w => (ws_cap w, ws_mapcap w, wfs_mapPrefixToURI w [100%N], wfs_mapPrefixToURI w [139%N])
+  | Err _ => (0, 0, (0, true), (0, true))
+  end = (50, 47, (105, false), (144, false)).
 Proof. vm_compute. reflexivity. Qed.
